@@ -18,6 +18,7 @@ type writeOpts struct {
 	outFile bool // output with -o instead of stdout
 	extra   []string
 	style   model.YAMLStyle
+	env     []string // extra environment of the child (e.g. GOMAXPROCS=3)
 }
 
 // playPiece runs `crd write` on the piece and returns the raw result and bytes.
@@ -36,7 +37,10 @@ func playPiece(c *core.Ctx, p model.Piece, f model.Flags, o writeOpts) (*runner.
 	} else {
 		stdin = doc
 	}
-	r := run(c, stdin, args...)
+	if stdin == nil {
+		stdin = []byte{}
+	}
+	r := c.Crd.Run(runner.Opt{Stdin: stdin, Env: o.env}, args...)
 	c.Eval(1)
 	out := r.Stdout
 	if o.outFile {
